@@ -64,6 +64,20 @@ def orderedLeavesList : List RY → List Nat
   | y :: ys => orderedLeaves y ++ orderedLeavesList ys
 end
 
+mutual
+/-- leaves that occur somewhere below a dict (their start order is not fixed by the statement) -/
+def dictLeaves : RY → List Nat
+  | .none => []
+  | .junk => []
+  | .f _ => []
+  | .tup l => dictLeavesList l
+  | .lst l => dictLeavesList l
+  | .dict _ vs => YS.leavesList vs
+def dictLeavesList : List RY → List Nat
+  | [] => []
+  | y :: ys => dictLeaves y ++ dictLeavesList ys
+end
+
 /-- t awaits f directly: f is a leaf of what the suspended task t yielded last, or t is in a synchronous call on f -/
 def Watch.awaitsDirect (w : Watch) (t f : Nat) : Bool :=
   (match w.lastYield.lookup t with
@@ -353,7 +367,9 @@ def watchEvent (w : Watch) : Event → Watch
     | _ => w
   | .run t i _ _ => { w with runs := insertKV w.runs t i, lastYield := w.lastYield.filter (fun p => p.1 != t) }
   | .yield t i y =>
-    let fresh := (orderedLeaves y).eraseDups.filter fun f => w.isTask f && !w.started f && !w.isDone f
+    let viaDict := dictLeaves y
+    let fresh := (orderedLeaves y).eraseDups.filter fun f =>
+      w.isTask f && !w.started f && !w.isDone f && !viaDict.contains f
     let w := { w with lastYield := insertKV w.lastYield t (i, y), orderObl := (t, fresh) :: w.orderObl }
     w.mention t y.leaves
   | .done f o => { w with outs := (f, o) :: w.outs, doneF := f :: w.doneF,
